@@ -23,6 +23,9 @@ type Merger struct {
 
 	less    func(a, b *sam.Record) bool
 	readers []*reader
+
+	// err is the read error of an input, reported by the next Read.
+	err error
 }
 
 type reader struct {
@@ -94,10 +97,21 @@ func NewMerger(less func(a, b *sam.Record) bool, src ...*Reader) (*Merger, error
 			continue
 		}
 		rec, err := r.Read()
+		if err != nil && err != io.EOF {
+			return nil, err
+		}
 		readers[i] = reader{id: i, r: r, head: rec, err: err}
 		m.readers[i] = &readers[i]
 	}
 	if m.less != nil {
+		// Only inputs that have a record take part in the merge.
+		live := m.readers[:0]
+		for _, r := range m.readers {
+			if r.head != nil {
+				live = append(live, r)
+			}
+		}
+		m.readers = live
 		heap.Init((*bySortOrderAndID)(m))
 	}
 
@@ -114,6 +128,9 @@ func (m *Merger) Header() *sam.Header {
 //
 // The Read behaviour will depend on the underlying Readers.
 func (m *Merger) Read() (rec *sam.Record, err error) {
+	if m.err != nil {
+		return nil, m.err
+	}
 	if len(m.readers) == 0 {
 		return nil, io.EOF
 	}
@@ -147,6 +164,8 @@ func (m *Merger) nextBySortOrder() (rec *sam.Record, err error) {
 	reader.head, reader.err = reader.r.Read()
 	if reader.err == nil {
 		m.push(reader)
+	} else if reader.err != io.EOF {
+		m.err = reader.err
 	}
 	if rec == nil {
 		return m.Read()
